@@ -11,6 +11,7 @@ one() {
   id=$1; prop=$(jq -r .property seeded/$id/meta.json); wt=$tmp/$id
   if [ "$(jq -r '.not_caught_reason // ""' seeded/$id/meta.json)" != "" ]; then echo "$id $prop NOT-CLAIMED (see meta.json: not_caught_reason)"; return; fi
   if [ "$(jq -r '.masked_on_current_tree // ""' seeded/$id/meta.json)" != "" ]; then echo "$id $prop MASKED (no longer observable on the current tree, see meta.json)"; return; fi
+  chk=$(jq -r '.check_with // ""' seeded/$id/meta.json); [ -n "$chk" ] && prop=$chk   # (caught by another property's check than the one it was written against)
   b=50; case $prop in C11|C19) b=80;; esac
   git -C /repo worktree add --detach $wt HEAD >/dev/null 2>&1 || { echo "$id $prop WORKTREE-FAILED"; return; }
   if ! git -C $wt apply $PWD/seeded/$id/patch.diff 2>/dev/null && ! git -C $wt apply -3 $PWD/seeded/$id/patch.diff 2>/dev/null; then
